@@ -104,6 +104,10 @@ def angle_set(ctx: Ctx, nrand: int):
     return out
 
 
+def hi_angs_tp(hi_angs):
+    return [(t, p) for t, p, _ in hi_angs]
+
+
 def lmax_set(ctx: Ctx):
     ls = [0, 1, 2, 3, 4, 5, 6, 7, 8, 10, 13, 20]
     if ctx.thorough:
@@ -193,6 +197,32 @@ def corr(ctx: Ctx):
                                  f"{impl[i]!r}, model {name} {rows[i]!r}",
                                  witness={"l_max": L, "theta": t, "phi": p, "row": i, "l": l, "m": m,
                                           "impl": float(impl[i]), "model": float(rows[i]), "angle_class": tag})
+
+    # -- high degrees: the recursion is documented to work up to the largest shipped angular degree
+    # (325; it runs in extended precision because sqrt((2l)!) overflows a double beyond l = 150).
+    # The code-shaped model overflows at Float there, so only the normalised model is compared.
+    hi_ls = [151, 160, 230, 325] if ctx.thorough else [151 + ctx.rng.randrange(0, 30), ctx.rng.choice([200, 260, 325])]
+    hi_angs = [(0.3, PI / 2, "equator"), (2.1, PI / 2 - 0.2, "near-equator"), (1.0, 1.0, "principal"),
+               (4.0, 2.6, "principal"), (-2.5, -1.2, "any"), (7.0, PI + 0.9, "any"), (0.7, 1e-3, "near-pole")]
+    hth = np.array([a[0] for a in hi_angs])
+    hph = np.array([a[1] for a in hi_angs])
+    for L in hi_ls:
+        ref = np.asarray(ut.generate_real_spherical_harmonics(L, hth, hph), dtype=float)
+        norm = driver_batch([f"C08.ylmNorm {L} {f2b(t)} {f2b(p)}" for t, p in hi_angs_tp(hi_angs)])
+        for j, (t, p, tag) in enumerate(hi_angs):
+            rows = _rows(norm[j])
+            ctx.count(["ylmNorm", "recursion-high-degree", L, t, p], nontrivial=True, tag=f"ylmNorm:recursion:high-degree:{tag}")
+            if rows is None or len(rows) != (L + 1) ** 2:
+                ctx.fail("corr", "ylmNorm:shape", f"ylmNorm({L}) answered {norm[j][:60]}")
+                continue
+            d, i = _maxdiff(rows, ref[:, j])
+            if not (d <= 2e-11 * (L + 1)):
+                l, m = py_lm_order(L)[i]
+                ctx.fail("corr", "ylmNorm:recursion:high-degree",
+                         f"generate_real_spherical_harmonics(l_max={L}, theta={t!r}, phi={p!r}) row {i} (l={l}, m={m}): implementation "
+                         f"{ref[i, j]!r}, model ylmNorm {rows[i]!r}",
+                         witness={"l_max": L, "theta": t, "phi": p, "row": i, "l": l, "m": m,
+                                  "impl": float(ref[i, j]), "model": float(rows[i]), "angle_class": tag})
 
     # -- derivative routine -----------------------------------------------------------------
     dangs = angs + [(ctx.rng.uniform(0, 6), x, "cot-threshold") for x in (5e-11, 9.9e-11, 1.01e-10, 2e-10, PI - 5e-11, PI + 2e-10)]
@@ -437,7 +467,7 @@ def oracle(ctx: Ctx, budget: str):
                              snippet=SNIP_DEF.format(fn=fn_src[k], L=Ldef, theta=t, phi=p, l=l, m=m, tol=tol))
 
     # (b) agreement of the two implementations, all rows, higher degree
-    for L in ([5, 20] + ([60] if large else [])):
+    for L in ([5, 20, 151 + ctx.rng.randrange(0, 60)] + ([60, 325] if large else [])):
         A = np.asarray(fns["recursion"](L, th, ph), dtype=float)
         B = np.asarray(fns["scipy"](L, th, ph), dtype=float)
         for j, (t, p, tag) in enumerate(angs):
